@@ -242,6 +242,13 @@ def check_text(cmds):
 def build_tfel_check(ck, built, objs):
     """tfel-check.cxx and TestLauncher.cxx of the current tree, linked with the process/signal managers compiled from
     the tree for the first harness (objects given first: they take precedence over the prebuilt shared libraries)"""
+    if getattr(vlib, "BUILD_MATCHES_REPO", False):
+        # the prebuilt libraries the executable is linked with must be complete (the build tree is shared and may be
+        # in the middle of a rebuild): bring them up to date under the build lock, as C38 does
+        ck.ensure_targets("TFELCheck", "TFELMFront")
+    else:
+        ck.notes.append("VERIF_REPO=%s has no build tree of its own: tfel-check.cxx, TestLauncher.cxx and the process/signal managers "
+                        "are compiled from it, the other libraries come from %s" % (vlib.REPO, vlib.BUILD))
     libs = ck.libflags("TFELCheck", "TFELMFront", "MFrontLogStream", "TFELMaterial", "TFELMathParser", "TFELMathCubicSpline",
                        "TFELGlossary", "TFELSystem", "TFELUtilities", "TFELException", "TFELConfig", "TFELUnicodeSupport",
                        "TFELNUMODIS", "TFELMath")
